@@ -9,6 +9,18 @@ COMMON_ASSUME = [
 ]
 
 PROPS = {
+  'C15': {
+    'rule': 'fuzz stage: libFuzzer over MYTH_CPU_LIST strings (bytes without NUL) differential against an independent parser of the documented range grammar; non-trivial = well-formed list with >= 2 ranges one of them a-b, or an ill-formed string containing digits; '
+            'environment stage: generated maps over the six configuration variables (unset, empty, clean, zero, negative, junk, integer+junk, whitespace, control characters, list-grammar mutations), implicit or explicit init; non-trivial = at least one variable holds a malformed value; '
+            'history stage: 1..20 (200 thorough) init/fini cycles (init_ex with 1..16 workers and 4 stack sizes, plain init, implicit init, two racing initialisers), finalisation after the main thread migrated; non-trivial = >= 2 cycles and (fini called from a worker other than 0 or a racing initialisation); distinct = hash of the decoded case',
+    'assumptions': ['no controlled scheduler in this property: natural timing, only invariants that hold under any timing are asserted', 'well-formed but unusable requests are excluded by construction: default stack below 16 KiB or above 64 MiB, more than 64 workers, numbers beyond int', 'worker count for integer+junk / whitespace-prefixed strings is not judged', 'plain myth_init() after an earlier myth_init_ex keeps the earlier attributes: its worker count is not judged'],
+    'stages': [
+      {'kind': 'replays', 'name': 'replay', 'variant': 'v0'},
+      {'kind': 'fuzz', 'name': 'cpulist-fuzz', 'target': 'fuzz_cpulist', 'runs': (150000, 3000000), 'max_len': 64},
+      {'kind': 'pbt', 'name': 'environment', 'variant': 'v0', 'prop': 15, 'cases': (150, 4000), 'prog_max': 64, 'sched_max': 0, 'procs': 8, 'hang_recheck': True},
+      {'kind': 'pbt', 'name': 'init-fini-histories', 'variant': 'v0', 'prop': 35, 'cases': (40, 1000), 'prog_max': 120, 'sched_max': 0, 'procs': 8, 'hang_recheck': True},
+    ],
+  },
   'C17': {
     'rule': 'C API stage: cases = (create_join_many / create_join_various, n from {0,1,2,3,odd,2^k-1,2^k,2^k+1,..300} or dense 0..40, one guarded byte arena holding args/results/ids/attrs/funcs as separate strided arrays (arg stride 0/1/8/24/40, larger-than-element strides, func stride 0 = shared slot) or as interleaved struct fields, each of results/ids/attrs NULL or not, per-item attributes with stack sizes and creation order; W in 1..8; schedule); non-trivial = n >= 2 AND (a leaf was stolen OR interleaved layout OR per-item attributes); '
             'mtbb stage: task_group with 0..40 run() calls (beyond the 8-entry inline list) of closures of 4 size classes, nested groups, group reuse; parallel_for (first,last) / (first,last,step) / (first,last,step,grain) / range-based over int and long with empty, single-element and reversed ranges; non-trivial = more than 8 run() calls, or an empty / single-element range, or a stolen task; distinct = hash of (program, schedule, seed)',
